@@ -173,6 +173,13 @@ pub fn call(name: &str, a: &Args, i: &[u8]) -> Option<Out> {
                 "reset" => { let _ = p.parse_record(raw(22, &[11, 0, 1, 0, 5])).map(|_| ()); p.reset(); }
                 // first records that are REFUSED (an unknown handshake type, an unregistered content type, a ServerHello of an unknown version):
                 // a refused record leaves no trace
+                // a fragmented record offered to parse_record_nocopy (answered Incomplete: nothing is kept), then the record under test
+                "nocopyfrag" => { let _ = p.parse_record_nocopy(raw(22, &[20, 0, 0, 9, 1])).map(|_| ()); }
+                "nocopyfrag2" => { let _ = p.parse_record_nocopy(raw(21, &[1])).map(|_| ()); let _ = p.parse_record_nocopy(raw(24, &[1, 0, 9, 1])).map(|_| ()); }
+                // first records refused with each kind of hard error (LengthValue: an odd cipher list; Verify: a 33-byte session id; Tag: an unknown ServerHello version)
+                "badlen" => { static CH: [u8; 45] = [1, 0, 0, 41, 3, 3, 7, 7, 7, 7, 7, 7, 7, 7, 7, 7, 7, 7, 7, 7, 7, 7, 7, 7, 7, 7, 7, 7, 7, 7, 7, 7, 7, 7, 7, 7, 7, 7, 0, 0, 3, 0, 47, 0, 1];
+                              let _ = p.parse_record(raw(22, &CH)).map(|_| ()); }
+                "badver" => { let _ = p.parse_record(raw(22, &[2, 0, 0, 2, 9, 9])).map(|_| ()); }
                 "badhs" => { let _ = p.parse_record(raw(22, &[99, 0, 0, 1, 5])).map(|_| ()); }
                 "badct" => { let _ = p.parse_record(raw(0x42, &[1, 2, 3])).map(|_| ()); }
                 "defrag+badhs" => { let _ = p.parse_record(raw(22, &[20, 0, 0, 2, 1])).map(|_| ()); let _ = p.parse_record(raw(22, &[2])).map(|_| ());
